@@ -127,3 +127,71 @@ def check_release(rep, prop, db, f, inst, release_pred, registered_field, fields
         rep.violation(rule, site(f), "no path reaches the release call", f["loc"], inst)
         return
     rep.ok(rule, site(f), "releases iff registered and resets all fields", inst)
+
+
+MUTATORS = {"push_back", "emplace_back", "insert", "emplace", "erase", "clear", "pop_back", "resize", "assign", "swap", "operator=", "operator[]",
+            "extract", "merge", "try_emplace", "insert_or_assign", "emplace_hint", "push_front", "pop_front", "remove", "remove_if"}
+
+
+def _strip(o):
+    while isinstance(o, dict) and o.get("k") in ("icast", "cast", "paren"):
+        o = o.get("e")
+    return o
+
+
+def member_mutations(db, member):
+    """(function, what, loc) for every syntactic mutation of the data member `member`: a mutating container method applied to it, an
+    assignment to it, or the member handed (not as the object of a method call) to another function"""
+    out = []
+
+    def is_m(o):
+        o = _strip(o)
+        return isinstance(o, dict) and o.get("k") in ("member", "ref") and o.get("n") == member
+
+    def walk(x, fn):
+        if isinstance(x, dict):
+            if x.get("k") == "call":
+                nm = (x.get("fn") or {}).get("n", "").split("::")[-1]
+                if "obj" in x and is_m(x["obj"]):
+                    if nm in MUTATORS and not (nm == "operator[]" and "map" not in (((_strip(x["obj"]) or {}).get("t") or {}).get("c") or "")):
+                        out.append((fn, nm, x.get("loc")))
+                elif x.get("opcall") in ("=", "+=") and x.get("args") and is_m(x["args"][0]):
+                    out.append((fn, "operator" + x["opcall"], x.get("loc")))
+                else:
+                    for a in x.get("args") or []:
+                        if is_m(a):
+                            out.append((fn, "passed to " + (nm or "a function"), x.get("loc")))
+            for v in x.values():
+                if isinstance(v, (dict, list)):
+                    walk(v, fn)
+        elif isinstance(x, list):
+            for v in x:
+                walk(v, fn)
+
+    for f in db.functions:
+        if not f["dep"] and "body" in f:
+            walk(f["body"], f)
+            for ini in f.get("inits", []):
+                walk(ini, f)
+    return out
+
+
+def reached_only_from(db, fname, allowed, depth=4):
+    """is function `fname` (qualified, template arguments stripped) called - transitively - only from functions in `allowed`?
+    (a helper extracted from an allowed function is fine; an unreferenced or publicly reachable one is not)"""
+    from .c04 import scan_callers
+    seen, frontier = set(), {fname}
+    for _ in range(depth):
+        nxt = set()
+        for fn in frontier:
+            callers = {c[0]["n"] for c in scan_callers(db, {fn.split("::")[-1]}) if c[0]["n"] != fn}
+            if not callers:
+                return False
+            for c in callers:
+                if c not in allowed and c not in seen:
+                    nxt.add(c)
+                    seen.add(c)
+        if not nxt:
+            return True
+        frontier = nxt
+    return False
